@@ -4,14 +4,16 @@
      tree   :  hex integer (optional leading '-')  |  '(' tree* ')'
    Nothing here interprets a case: decoding of arguments and printing of results
    is Gallina (Dispatch.v).  The only conversions are int <-> positive/Z bit by bit. *)
+(* no `open Model`: an extracted development may define types named string, list, ... *)
 open Model
+type str = Stdlib.String.t
 
 (* hex string -> positive, reading bits; s non-empty, not all zero *)
-let z_of_hex (s : string) : z =
-  let neg = String.length s > 0 && s.[0] = '-' in
-  let s = if neg then String.sub s 1 (String.length s - 1) else s in
+let z_of_hex (s : str) : z =
+  let neg = Stdlib.String.length s > 0 && s.[0] = '-' in
+  let s = if neg then Stdlib.String.sub s 1 (Stdlib.String.length s - 1) else s in
   (* collect bits, least significant first *)
-  let n = String.length s in
+  let n = Stdlib.String.length s in
   let bits = Buffer.create (4 * n) in
   for i = n - 1 downto 0 do
     let c = s.[i] in
@@ -23,7 +25,7 @@ let z_of_hex (s : string) : z =
   done;
   let b = Buffer.contents bits in
   (* index of most significant set bit *)
-  let top = ref (String.length b - 1) in
+  let top = ref (Stdlib.String.length b - 1) in
   while !top >= 0 && b.[!top] = '0' do decr top done;
   if !top < 0 then Z0
   else begin
@@ -34,7 +36,7 @@ let z_of_hex (s : string) : z =
     if neg then Zneg !p else Zpos !p
   end
 
-let hex_of_pos (p : positive) : string =
+let hex_of_pos (p : positive) : str =
   (* bits least significant first *)
   let buf = Buffer.create 32 in
   let rec go p = match p with
@@ -43,7 +45,7 @@ let hex_of_pos (p : positive) : string =
     | XI q -> Buffer.add_char buf '1'; go q in
   go p;
   let b = Buffer.contents buf in
-  let n = String.length b in
+  let n = Stdlib.String.length b in
   let nd = (n + 3) / 4 in
   let out = Bytes.create nd in
   for d = 0 to nd - 1 do
@@ -56,14 +58,14 @@ let hex_of_pos (p : positive) : string =
   done;
   Bytes.to_string out
 
-let hex_of_z (x : z) : string = match x with
+let hex_of_z (x : z) : str = match x with
   | Z0 -> "0"
   | Zpos p -> hex_of_pos p
   | Zneg p -> "-" ^ hex_of_pos p
 
 (* tokenizer / parser *)
-let parse_tree (s : string) (start : int) : tree * int =
-  let n = String.length s in
+let parse_tree (s : str) (start : int) : tree * int =
+  let n = Stdlib.String.length s in
   let rec skip i = if i < n && (s.[i] = ' ' || s.[i] = '\t') then skip (i + 1) else i in
   let rec tree i =
     let i = skip i in
@@ -72,30 +74,30 @@ let parse_tree (s : string) (start : int) : tree * int =
       let rec items i acc =
         let i = skip i in
         if i >= n then failwith "unclosed"
-        else if s.[i] = ')' then (TL (List.rev acc), i + 1)
+        else if s.[i] = ')' then (TL (Stdlib.List.rev acc), i + 1)
         else let (t, j) = tree i in items j (t :: acc) in
       items (i + 1) []
     else
       let j = ref i in
       while !j < n && s.[!j] <> ' ' && s.[!j] <> '(' && s.[!j] <> ')' do incr j done;
-      (TI (z_of_hex (String.sub s i (!j - i))), !j) in
+      (TI (z_of_hex (Stdlib.String.sub s i (!j - i))), !j) in
   tree start
 
 let rec print_tree (buf : Buffer.t) (t : tree) : unit = match t with
   | TI x -> Buffer.add_string buf (hex_of_z x)
   | TL l ->
     Buffer.add_char buf '(';
-    List.iteri (fun i x -> if i > 0 then Buffer.add_char buf ' '; print_tree buf x) l;
+    Stdlib.List.iteri (fun i x -> if i > 0 then Buffer.add_char buf ' '; print_tree buf x) l;
     Buffer.add_char buf ')'
 
 let () =
   try
     while true do
       let line = input_line stdin in
-      if String.length line > 0 then begin
-        let sp = try String.index line ' ' with Not_found -> String.length line in
-        let fn = z_of_hex (String.sub line 0 sp) in
-        let (arg, _) = if sp < String.length line then parse_tree line sp else (TL [], 0) in
+      if Stdlib.String.length line > 0 then begin
+        let sp = try Stdlib.String.index line ' ' with Not_found -> Stdlib.String.length line in
+        let fn = z_of_hex (Stdlib.String.sub line 0 sp) in
+        let (arg, _) = if sp < Stdlib.String.length line then parse_tree line sp else (TL [], 0) in
         let r = (try dispatch fn arg with Stack_overflow -> TL [TI (z_of_hex "-1")]) in
         let buf = Buffer.create 256 in
         print_tree buf r;
